@@ -142,3 +142,44 @@ def pop_acceptance(rng, tier):
         yield {"call": lambda self, individuals, individual: self.pop_acceptance(individuals, individual),
                "args": {"self": s, "individuals": pop, "individual": y}, "extra": _EXTRA, "post_extra": witness,
                "label": "%r|%r" % ([x.costs_signed for x in pop], y.costs_signed)}
+
+
+def _swarm_algo(cls, box):
+    import logging
+    import importlib
+    from artap.problem import Problem
+
+    class P(Problem):
+        def set(self):
+            self.parameters = _params(box)
+            self.costs = [{'name': 'f1'}, {'name': 'f2'}]
+
+        def evaluate(self, individual):
+            return [sum(individual.vector), -individual.vector[0]]
+    p = P()
+    p.logger.setLevel(logging.CRITICAL)
+    a = getattr(importlib.import_module("artap.algorithm_swarm"), cls)(p)
+    a.options['verbose_level'] = 0
+    return a
+
+
+def _turbulence(cls):
+    def gen(rng, tier):
+        from artap.individual import Individual
+        from artap.operators import PmMutator
+        for k in range(40 if tier == "quick" else 600):
+            box = rng.choice(BOXES)
+            a = _swarm_algo(cls, box)
+            if cls == "SMPSO":
+                a.mutator = PmMutator(a.problem.parameters, 1.0)
+            swarm = [Individual(_point(rng, box)) for _ in range(rng.randint(0, 8))]
+            step = rng.choice([0, 1, a.options['max_population_number']])
+            yield {"call": lambda self, particles, current_step: self.turbulence(particles, current_step),
+                   "args": {"self": a, "particles": swarm, "current_step": step},
+                   "label": "%s box=%r step=%d %r" % (cls, box, step, [x.vector for x in swarm])}
+    gen.__name__ = "turbulence_" + cls
+    return gen
+
+
+scenario("artap.algorithm_swarm:OMOPSO.turbulence", bound="swarms of <= 8 particles (on / next to bounds included), 4 boxes, steps 0, 1, max")(_turbulence("OMOPSO"))
+scenario("artap.algorithm_swarm:SMPSO.turbulence", bound="as OMOPSO.turbulence")(_turbulence("SMPSO"))
